@@ -9,23 +9,27 @@
    token / stake unit, index = addresses of the existing validators, delegator
    accounts and validators agree (lists readable, both directions, balance =
    sum).  [safe ops] (Proofs.v / ProofsSim.hpre) says that no operation of the
-   history enters one of the four remaining finding classes (F2 RemoveValidator
-   of a cached validator, F3 GetValidatorsForUpdate while the in-memory index
-   differs from the persisted one, F5 delegation from an address without
-   account, F6 a validator that IsInvalid() deletes although it holds tokens)
+   history enters one of the three open finding classes
+     F5 delegate-from-missing-account (UpdateDelegation from an address without account),
+     F7 stale-index-reload (GetValidatorsForUpdate while the in-memory index is
+        empty and the persisted one is not: every validator removed since the last root),
+     F8 copy-reindexes-removed-validator (Copy while a removed validator is
+        finalised but not yet rooted),
    or breaks the callers' discipline (stake = token/unit on creation, updates
    that move the total by the change of the self part, no delegation withdrawn
-   below zero, valid roles and revision ids).  The ghost number t of wf/R/hpre
-   (number of oldest validator-journal entries excluded from the journal
-   invariant) is 0 along every run from [init]; it is vestigial since the
-   repository fix fe4c1ff gave UpdateDelegation a private slice. *)
+   below zero, RemoveValidator only of validators without delegations, valid
+   roles and revision ids).  F7 and F8 need RemoveValidator, which no code of
+   the repository calls.  The classes F1-F4, F6 of earlier revisions were
+   repaired in the repository (fe4c1ff, b4b663f, 20d771e, 464c034, 0cdbb3b,
+   877ecbf); their witnesses are regression cases now.  The ghost number t of
+   wf/R/hpre is 0 along every run from [init] (vestigial). *)
 From VF.C08 Require Import Model Abstract ProofsA ProofsSim Proofs Witnesses Bridge.
 Local Open Scope Z_scope.
 
 (* the full-strength statement: over every history whatsoever *)
 Definition C08_full : Prop := forall ops s, run init ops = Some s -> inv_all s = true.
 
-(* 1. it is false for the code as it is: four independent classes of histories break it *)
+(* 1. it is false for the code as it is: three classes of histories break it *)
 Theorem C08_full_refuted : ~ C08_full.
 Proof. exact full_statement_refuted. Qed.
 Print Assumptions C08_full_refuted.
@@ -46,41 +50,39 @@ Print Assumptions C08_inv_holds_at_every_point.
 (* 3. the two halves of the argument, stated separately.
    (a) the value-level semantics (no cache, no shared slices; Abstract.v) keeps
        the invariant J = property + "every valid revision restores a state
-       satisfying the property" under EVERY operation meeting the discipline,
-       reverts across delegation updates included *)
+       satisfying the property" under EVERY operation meeting the discipline *)
 Theorem C08_value_level_invariant :
   J ainit /\ forall s o, J s -> a_pre s o = true -> J (a_step s o).
 Proof. exact (conj J_init J_step). Qed.
 Print Assumptions C08_value_level_invariant.
 
 (* (b) outside the finding classes one step of the faithful model is one step of
-       the value-level semantics (R: abstraction relation, wf: cache coherence,
-       tombstones, slice separation, journal chain) *)
+       the value-level semantics (a_step_h: RemoveValidator touches cached, not
+       yet removed validators only; R: abstraction relation, wf: cache
+       coherence, tombstones, slice separation, journal chain) *)
 Theorem C08_faithful_refines_value_level :
   forall h t x o h', wf h t -> R h t x -> J x -> hpre h t o = true -> step h o = Some h' ->
-    wf h' (taint_next h t o h') /\ R h' (taint_next h t o h') (a_step x o) /\ J (a_step x o).
+    wf h' (taint_next h t o h') /\ R h' (taint_next h t o h') (a_step_h h x o) /\ J (a_step_h h x o).
 Proof. exact sim_step. Qed.
 Print Assumptions C08_faithful_refines_value_level.
 
-(* 4. the finding classes are real: each witness is a history whose last
+(* 4. the open finding classes are real: each witness is a history whose last
    operation is the first one outside [safe] and whose final state violates
    the property (replayed against the implementation by the harness corpus) *)
-Theorem C08_refuted_remove_validator : refutes w_f2.
-Proof. exact refuted_f2. Qed.
-Print Assumptions C08_refuted_remove_validator.
-Theorem C08_refuted_remove_validator_double_decrement :
-  exists s, run init w_f2b = Some s /\ inv_stat s = false /\ on_count (k0 (stat_ s)) = 0 /\ length (live s) = 1%nat.
-Proof. exact f2_double_decrement. Qed.
-Print Assumptions C08_refuted_remove_validator_double_decrement.
-Theorem C08_refuted_list_reloads_index : refutes w_f3.
-Proof. exact refuted_f3. Qed.
-Print Assumptions C08_refuted_list_reloads_index.
 Theorem C08_refuted_delegate_from_missing_account : refutes w_f5.
 Proof. exact refuted_f5. Qed.
 Print Assumptions C08_refuted_delegate_from_missing_account.
-Theorem C08_refuted_isinvalid_truncation : refutes w_f6.
-Proof. exact refuted_f6. Qed.
-Print Assumptions C08_refuted_isinvalid_truncation.
+Theorem C08_refuted_stale_index_reload : refutes w_f7.
+Proof. exact refuted_f7. Qed.
+Print Assumptions C08_refuted_stale_index_reload.
+Theorem C08_refuted_copy_reindexes_removed_validator : refutes w_f8.
+Proof. exact refuted_f8. Qed.
+Print Assumptions C08_refuted_copy_reindexes_removed_validator.
+
+(* the repaired classes: their former witnesses are safe histories satisfying the property *)
+Theorem C08_repaired_classes_hold : holds_b r_f2 = true /\ holds_b r_f3 = true /\ holds_b r_f6 = true.
+Proof. exact (conj repaired_f2 (conj repaired_f3 repaired_f6)). Qed.
+Print Assumptions C08_repaired_classes_hold.
 
 (* 5. Validator.Less is a strict total order on validators with distinct
    addresses, so the sorted validator list and the voter indexes derived from
@@ -101,8 +103,9 @@ Print Assumptions C08_repo_params_match.
 (* non-vacuity: a concrete history outside all finding classes that creates
    three validators, delegates, withdraws a delegation completely, reverts a
    deposit, a creation and (twice) delegation updates made since the snapshot,
-   deletes an emptied validator at IntermediateRoot, commits and reloads twice
-   and copies with uncommitted delegation lists; it is safe, does not panic,
+   deletes an emptied validator at IntermediateRoot, commits and reloads twice,
+   copies with uncommitted delegation lists, removes a validator and re-creates
+   it (both reverted), removes it again; it is safe, does not panic,
    ends with two validators holding delegations and satisfies the property *)
 Definition U : Z := stake_unit.
 Definition ex_hist : list op :=
@@ -129,6 +132,9 @@ Definition ex_hist : list op :=
    ODelegate 2 100 U;
    OSnapshot; ODelegate 2 100 (- (6 * U)); ORevert 0;
    ODelegate 3 200 (- U);
+   OCreate 400 2 1 (3 * U) 3;
+   OSnapshot; ORemove 400; OCreate 400 1 0 U 1; ORevert 0;
+   ORemove 400; OList;
    ORoot].
 Example C08_nonvacuous_safe_history :
   safe ex_hist = true /\
